@@ -426,10 +426,11 @@ package jet
 //@   ensures PInv(t) && result != nil && WFTag(result)
 
 //@ func (*Template).parseReturn
-//@   props C02
+//@   props C02 C20 C09
 //@   requires PInv(t)
 //@   modifies @Parse
 //@   ensures PInv(t) && result != nil && WFTag(result)
+//@   callsite (*Template).newReturn 0 requires [a-return-statement-has-a-value] {C20,C09} value != nil && value == lastret("(*Template).expression", 0)
 
 //@ func (*Template).parseTemplate
 //@   props C02 C03 C08 C20 C15
